@@ -9,19 +9,29 @@ NAME=$1; WT=$2; shift 2
 cd "$WT" || exit 2
 git checkout -q -- . ; git clean -fdq -e SEED
 DEMO=$(ls SEED | grep -E 'demo.*_test\.go$' | head -1)
-[ -n "$DEMO" ] || { echo "no go demo in $WT/SEED"; exit 2; }
+KIND=test
+if [ -z "$DEMO" ] && [ -f SEED/demo/main.go ]; then DEMO=demo; KIND=prog; fi
+if [ -z "$DEMO" ] && [ -f SEED/demo.sh ]; then DEMO=demo.sh; KIND=sh; fi
+[ -n "$DEMO" ] || { echo "no demo in $WT/SEED"; exit 2; }
+rundemo() {
+  case $KIND in
+    test) cp "SEED/$DEMO" ./zz_seed_demo_test.go; "$GO_BIN" test -count=1 -run 'Seed|Demo|C[0-9][0-9]|OCRAShort' . ; rc=$?; rm -f zz_seed_demo_test.go; return $rc ;;
+    prog) GO="$GO_BIN" timeout 600 "$GO_BIN" run ./SEED/demo ;;
+    sh)   GO="$GO_BIN" timeout 600 bash SEED/demo.sh ;;
+  esac
+}
 git apply SEED/patch.diff || { echo "patch does not apply"; exit 2; }
 pk=$("$GO_BIN" list ./... 2>/dev/null | grep -v /SEED)
 if "$GO_BIN" test -count=1 $pk >/tmp/seedverify.$$.log 2>&1 && (cd internal/app && "$GO_BIN" build ./... ) >>/tmp/seedverify.$$.log 2>&1; then suite=pass; else suite=FAIL; tail -5 /tmp/seedverify.$$.log; fi
-cp "SEED/$DEMO" ./zz_seed_demo_test.go
-if "$GO_BIN" test -count=1 -run 'Seed|Demo|C[0-9][0-9]|OCRAShort' . >/tmp/seedverify.$$.log 2>&1; then with=pass; else with=FAIL; fi
+export GO="$GO_BIN"
+if rundemo >/tmp/seedverify.$$.log 2>&1; then with=pass; else with=FAIL; fi
 git checkout -q -- .
-if "$GO_BIN" test -count=1 -run 'Seed|Demo|C[0-9][0-9]|OCRAShort' . >/tmp/seedverify.$$.log 2>&1; then without=pass; else without=FAIL; tail -5 /tmp/seedverify.$$.log; fi
-rm -f zz_seed_demo_test.go /tmp/seedverify.$$.log
+if rundemo >/tmp/seedverify.$$.log 2>&1; then without=pass; else without=FAIL; tail -5 /tmp/seedverify.$$.log; fi
+rm -f /tmp/seedverify.$$.log
 echo "SEED $NAME: suite-with-patch=$suite demo-with-patch=$with demo-without=$without"
 [ "$suite" = pass ] && [ "$with" = FAIL ] && [ "$without" = pass ] || { echo "SEED $NAME NOT CONFIRMED"; exit 3; }
 D=/verif/seeded/$NAME; mkdir -p "$D"
-cp SEED/patch.diff "$D/patch.diff"; cp "SEED/$DEMO" "$D/$DEMO"; cp SEED/meta.json "$D/meta.agent.json"
+cp SEED/patch.diff "$D/patch.diff"; cp -r "SEED/$DEMO" "$D/"; cp SEED/meta.json "$D/meta.agent.json"
 res=""
 cd /verif
 git -C /repo diff --quiet || { echo "/repo is dirty, refusing"; exit 2; }
